@@ -53,7 +53,8 @@ theorem kstep_scrWait {cfg : Cfg} (fuel : Nat) {s : KS} {a : A} {q : QEntry ℚ}
     rw [hstep, e1']
     exact closeEvent_ok e3
   have hinv2 : Inv S2 := (ackStep_safe hiT.inv x w2).2 _ _ hack
-  refine ⟨S, _, [.ack x], outs, hS, e2, ?_, runLts_one hack, htxs⟩
+  refine ⟨S, _, [.ack x], outs, hS, e2, ?_, runLts_one hack, htxs,
+    fun y hy => by simp only [List.mem_singleton] at hy; subst hy; exact w2⟩
   -- the invariants
   have hrT : RunA (aTick a q.time) a.run := hiT.run
   refine ⟨hinv2, fk.trans hiT.kind, fm.trans hiT.mss, fs.trans hiT.size, hiT.mpos, hiT.spos, hiT.dvd, ?_, ?_, ?_, ?_, rfl, ?_, ?_,
